@@ -164,6 +164,68 @@ func c12New(W, L int) {
 func H_c12_new_q() { c12New(3, 2) }
 func H_c12_new_t() { c12New(4, 3) }
 
+// c12Abc: EVERY set of words of length <= L over the first A letters (concrete words,
+// one path per subset of the A^0+..+A^L candidates), probe of symbolic content.
+func c12Abc(A, L int) {
+	var all [][]byte
+	var gen func(prefix []byte)
+	gen = func(prefix []byte) {
+		all = append(all, append([]byte{}, prefix...))
+		if len(prefix) == L {
+			return
+		}
+		for c := 0; c < A; c++ {
+			gen(append(prefix, byte('a'+c)))
+		}
+	}
+	gen(nil) // preorder == lexicographic order
+	var words [][]byte
+	for _, w := range all {
+		if rt.Choice("in", 2) == 1 {
+			words = append(words, w)
+		}
+	}
+	orig := dwCopyWords(words)
+	var d *Dawg
+	var err error
+	p, msg := rt.Panics(func() { d, err = New(words) })
+	rt.Check(!p, "dawg.New panicked on a sorted word list: "+msg)
+	if p {
+		return
+	}
+	rt.Check(err == nil, "dawg.New rejected a strictly increasing list")
+	if err != nil {
+		return
+	}
+	rt.Check(d.NumberOfWords() == len(orig), "New: NumberOfWords wrong")
+	// every candidate word, and every candidate extended by one more letter (incl. one outside the alphabet)
+	rank := 0
+	for _, w := range all {
+		in := rank < len(orig) && dwEq(orig[rank], w)
+		idx, ok := d.Lookup(append([]byte{}, w...))
+		rt.Check(ok == in, "New: Lookup membership wrong")
+		if ok && in {
+			rt.Check(idx == rank, "New: Lookup rank wrong")
+		}
+		if in {
+			rank++
+		}
+		if len(w) == L {
+			for c := 0; c <= A; c++ {
+				_, ok := d.Lookup(append(append([]byte{}, w...), byte('a'+c)))
+				rt.Check(!ok, "New: Lookup accepts a word longer than every word of the set")
+			}
+		}
+	}
+	_, ok := d.Lookup([]byte{byte('a' + A)})
+	rt.Check(!ok, "New: Lookup accepts a letter outside the alphabet")
+	rt.Check(d.numberOfNodes() == dwMinimalStates(orig), "automaton is not minimal (node count differs from Myhill-Nerode count)")
+	rt.Reach("end")
+}
+
+func H_c12_abc_q() { c12Abc(3, 2) }
+func H_c12_abc_t() { c12Abc(2, 3) }
+
 // c12Builder: arbitrary Add sequences; rejected adds must not change what is built.
 func c12Builder(K, L int) {
 	var db Builder
